@@ -259,6 +259,20 @@ func (r *runner) transition(name, src, evt, dst string, wait time.Duration) {
 	}, wait)
 }
 
+// lastAnswerOk: the request issued last was answered without an error
+func (r *runner) lastAnswerOk() bool {
+	if len(r.reqs) == 0 {
+		return false
+	}
+	id := r.reqs[len(r.reqs)-1].id
+	for _, it := range r.ag.snapshot() {
+		if it.Class == "resp" && it.CmdID == id {
+			return it.Err == ""
+		}
+	}
+	return false
+}
+
 func (r *runner) trigger(wait time.Duration) {
 	cmd := controlcommands.NewMesosCommand_TriggerHook(r.envID, []controlcommands.MesosCommandTarget{r.target()})
 	single := cmd.MakeSingleTarget(r.target())
@@ -486,7 +500,7 @@ func (r *runner) step(a string) {
 		r.transition("conf", "STANDBY", "CONFIGURE", "CONFIGURED", 2*time.Second)
 	case "start":
 		r.transition("start", "CONFIGURED", "START", "RUNNING", 2*time.Second)
-		if r.sc.Kind == "basic" {
+		if r.sc.Kind == "basic" && r.lastAnswerOk() { // a refused START starts nothing
 			r.waitChildren(nChildren+1, 1500*time.Millisecond)
 			time.Sleep(80 * time.Millisecond)
 		}
